@@ -40,7 +40,9 @@ RULE = ('Hypothesis-generated configurations (grid: GLOBAL_MERCATOR / GLOBAL_GEO
         '(0 / last / interior), plus two-axis combinations, off-list formats, off-list dimension values and valid corner '
         'addresses (0, last) of the first / last level; when feature info is configured (2 of 3 configurations) WMTS GetFeatureInfo '
         '(kvp + restful) with the same out-of-matrix lattice; WMS GetMap with WIDTHxHEIGHT below / at / above / far above / '
-        'astronomically above max_output_pixels, with bboxes that need T = limit-1, limit, limit+1, limit+2, 4*limit tiles '
+        'astronomically above max_output_pixels - each relation plain and twice with extra parameters (tiled=true in four '
+        'spellings, EXCEPTIONS=inimage / blank, TRANSPARENT, BGCOLOR, unknown vendor parameters), on cached layers and, in 4 of 5 '
+        'configurations, on a layer wired directly to a WMS source and a layer mixing a cache and a direct source -, with bboxes that need T = limit-1, limit, limit+1, limit+2, 4*limit tiles '
         '(unambiguous: aligned to the level resolution, 0.25 tile inside the tile union), and bboxes across / beyond the grid '
         'edge.  One request = one evaluation.  Non-trivial: a tile address with a coordinate within 1 of a matrix boundary '
         '(-1, 0, last, last+1; level -1, first, last, last+1) or astronomically large (2^31, 10^18, level 99 / non-numeric), an '
@@ -66,6 +68,9 @@ ASSUMPTIONS = [
     'max_output_pixels: doc/services.rst "requests that are larger" are refused, WIDTH*HEIGHT == limit must be served; '
     'max_tile_limit: doc says "maximum number of tiles MapProxy will merge", the code refuses T >= limit; T == limit is judged '
     'only for side effects, T < limit must be served, T > limit must be refused',
+    'extra request parameters never weaken a refusal: over max_output_pixels => error, empty upstream log, no cache write whatever '
+    'else the request carries (with EXCEPTIONS=inimage / blank the answer may be an image, only the side effects are judged); a '
+    'below-limit request with tiled=true follows the WMS-C alignment rules, which are not modelled: judged for the global clause only',
     'tile count of a GetMap: request in the grid SRS, min(x, y) resolution equal to a level resolution, bbox = union of nx x ny '
     'tiles shrunk by 0.25 tile on every side and lying inside the grid bbox',
     'cache write = any new / changed / removed file, directory or sqlite row below the configured cache directories (lock '
@@ -89,6 +94,10 @@ OFF_EXT = ['jpeg', 'png', 'gif', 'tiff', 'pn', 'pngx', 'xml', 'webp', 'bmp']
 OFF_MIME = ['image/jpeg', 'image/png', 'image/gif', 'image/tiff', 'text/xml', 'application/json', 'image/pn', 'image/webp']
 OFF_DIM = ['2018', '1999-01-01', '20200', 'x', '2020,2021', '2020/2021', '..', 'latest', '-1', '2020.5']
 DIM_VALUES = {'time': (['2019', '2020', '2021'], '2020'), 'elevation': (['0', '500', '1000'], '500')}
+# vendor / optional parameters that must not weaken a refusal (appended to the GetMap query)
+TILED_EXTRAS = ['tiled=true', 'TILED=TRUE', 'tiled=True', 'Tiled=tRuE', 'tiled=true&EXCEPTIONS=inimage']
+OTHER_EXTRAS = ['EXCEPTIONS=inimage', 'TRANSPARENT=true', 'FOO=bar&X_VENDOR=1', 'BGCOLOR=0xff0000', 'EXCEPTIONS=blank',
+                'tiled=false', 'DPI=300&MAP_RESOLUTION=300', 'TILED=yes']
 REST_TEMPLATES = [None, None,
                   '/{Layer}/{TileMatrixSet}/{TileMatrix}/{TileRow}/{TileCol}.{Format}',
                   '/x/{TileMatrixSet}/{Layer}/{TileMatrix}/{TileCol}/{TileRow}.{Format}']
@@ -195,6 +204,8 @@ def opt_specs(draw):
         'max_tile_limit': draw(st.sampled_from([3, 4, 5, 6, 8, 9, 12])),
         'max_px': draw(st.sampled_from([(2, 2), (3, 2), (2, 3), (3, 3), (4, 4), (4, 2)])),
         'fi': draw(st.sampled_from([True, True, False])),
+        # layers that are not (only) backed by a cache: lyr_d = WMS source directly, lyr_m = cache c_a + direct source
+        'direct': draw(st.sampled_from([None, 'd', 'dm', 'dm', 'dm'])),
     }
 
 
@@ -269,8 +280,20 @@ def make_probes(seed, opts):
                     a['nonnum'] = rnd.randrange(len(NONNUM))
                 probes.append(dict(a, kind='wmts-fi', svc=svc, layer=layer, fmt='ok', dim=None))
     # WMS
+    px_layers = ['a', 'b', 'ab']
+    direct = opts.get('direct') or ''
+    if 'd' in direct:
+        px_layers += ['d', 'd', 'ad']
+    if 'm' in direct:
+        px_layers += ['m', 'm']
     for rel in ('below', 'at', 'at-swapped', 'above-w', 'above-h', 'far', 'astro', 'astro-1'):
-        probes.append({'kind': 'wms-pixels', 'layer': rnd.choice(['a', 'b', 'ab']), 'rel': rel,
+        probes.append({'kind': 'wms-pixels', 'layer': rnd.choice(px_layers), 'rel': rel,
+                       'col': rnd.choice(VAL_COL), 'row': rnd.choice(VAL_COL)})
+        # the same relation with extra parameters: the limit holds whatever else the request carries
+        probes.append({'kind': 'wms-pixels', 'layer': rnd.choice(px_layers), 'rel': rel, 'extras': rnd.choice(TILED_EXTRAS),
+                       'col': rnd.choice(VAL_COL), 'row': rnd.choice(VAL_COL)})
+        probes.append({'kind': 'wms-pixels', 'layer': rnd.choice(px_layers), 'rel': rel,
+                       'extras': rnd.choice(TILED_EXTRAS + OTHER_EXTRAS + OTHER_EXTRAS),
                        'col': rnd.choice(VAL_COL), 'row': rnd.choice(VAL_COL)})
     for rel in ('below', 'below', 'at', 'above', 'above', 'above2', 'far'):
         probes.append({'kind': 'wms-tiles', 'layer': rnd.choice(['a', 'b', 'a', 'b', 'ab']), 'rel': rel,
@@ -368,19 +391,28 @@ def build_conf(case, facts, base_dir):
         b_backend = {'type': 'sqlite', 'directory': os.path.join(cache_root, 'sb')}
     else:
         b_backend = {'type': 'mbtiles', 'filename': os.path.join(cache_root, 'mb.mbtiles')}
+    layers = [layer_a, {'name': 'lyr_b', 'title': 'Layer B', 'sources': ['c_b']}]
+    direct = o.get('direct') or ''
+    if 'd' in direct:
+        layers.append({'name': 'lyr_d', 'title': 'Direct', 'sources': ['src_d']})
+    if 'm' in direct:
+        layers.append({'name': 'lyr_m', 'title': 'Mixed', 'sources': ['c_a', 'src_d']})
+    sources = {'src_w': {'type': 'wms', 'wms_opts': {'featureinfo': bool(o.get('fi'))},
+                         'req': {'url': 'http://wms.test/service?', 'layers': 'a'}},
+               'src_t': {'type': 'tile', 'grid': 'g1', 'url': 'http://tiles.test/%(tms_path)s.%(format)s'}}
+    if direct:
+        sources['src_d'] = {'type': 'wms', 'req': {'url': 'http://wmsd.test/service?', 'layers': 'd', 'transparent': True}}
     return {
         'services': {'tms': tms, 'kml': {'use_grid_names': bool(o['grid_names'])}, 'wmts': wmts,
                      'wms': {'srs': sorted(set([facts['srs'], 'EPSG:4326'])),
                              'max_output_pixels': [wm, hm]}},
-        'layers': [layer_a, {'name': 'lyr_b', 'title': 'Layer B', 'sources': ['c_b']}],
+        'layers': layers,
         'caches': {
             'c_a': cache('c_a', o['a_source'], o['a_fmt'],
                          {'type': 'file', 'directory_layout': o['layout'], 'directory': os.path.join(cache_root, 'fa')}),
             'c_b': cache('c_b', o['b_source'], o['b_fmt'], b_backend),
         },
-        'sources': {'src_w': {'type': 'wms', 'wms_opts': {'featureinfo': bool(o.get('fi'))},
-                              'req': {'url': 'http://wms.test/service?', 'layers': 'a'}},
-                    'src_t': {'type': 'tile', 'grid': 'g1', 'url': 'http://tiles.test/%(tms_path)s.%(format)s'}},
+        'sources': sources,
         'grids': {'g1': grid_conf(case['grid'])},
         'globals': {'cache': {'max_tile_limit': int(o['max_tile_limit'])}},
     }
@@ -620,7 +652,8 @@ class ConfigRun(object):
             c += ['grid:custom-' + g['flavour'], 'mode:' + g['mode']]
         c += ['a:file-%s/%s/%s' % (o['layout'], o['a_source'], o['a_fmt']),
               'b:%s/%s/%s' % (o['b_backend'] if o['b_backend'] != 'file' else 'file-' + o['b_layout'], o['b_source'], o['b_fmt']),
-              'dims:%s' % ('+'.join(o['dims']) if o.get('dims') else 'none')]
+              'dims:%s' % ('+'.join(o['dims']) if o.get('dims') else 'none'),
+              'uncached-layers:%s' % (o.get('direct') or 'none')]
         return c
 
     def run(self):
@@ -647,6 +680,15 @@ class ConfigRun(object):
                                   x0=float(self.ref.bbox[0]), y0=float(self.ref.bbox[1]))
                 up.ground = g
                 up.add_wms('wms.test', ground=g)
+
+                def capped(info, _g=g):
+                    # the direct source would be asked for the full output size: never render more than 4 Mpx in the harness
+                    w, h = info['size']
+                    if w * h > 4000000:
+                        from PIL import Image
+                        return Image.new('RGB', (1, 1), (90, 120, 150))
+                    return _g.render(info['bbox'], info['size'], info['srs'])
+                up.add_wms('wmsd.test', ground=g, render_fn=capped)
                 up.add_tiles('tiles.test', self.ref, self.facts['srs'], 'tms', ground=g)
                 self.fetch = refclient.wsgi_fetcher(app)
                 self._load_documents()
@@ -1001,9 +1043,9 @@ class ConfigRun(object):
         ok = self.global_checks(probe, req, calls, added, svc)
         if not ok:
             return
-        if expect in ('refuse', 'refuse-or-any'):
+        if expect in ('refuse', 'refuse-or-any', 'refuse-any-answer'):
             refused = cls in ('error', 'raised')
-            if refused or expect == 'refuse':
+            if refused or expect != 'refuse-or-any':
                 if calls:
                     self.violation(sig_override or 'C16/%s/%s/upstream-request' % (svc, what),
                                    'request that must be refused (%s) caused %d upstream request(s), first %s; answer %s %s'
@@ -1022,6 +1064,8 @@ class ConfigRun(object):
                     self.violation(sig_override or 'C16/%s/%s/served' % (svc, what),
                                    'request that must be refused (%s) was answered with %s %s (%d bytes)'
                                    % (what, cls, detail, len(res.body)), probe, req)
+            elif expect == 'refuse-any-answer':
+                self.stats.notes['over-pixel-limit-with-image-exceptions:answer-%s' % cls] += 1
             elif not refused:
                 self.stats.notes['at-tile-limit:served'] += 1
             else:
@@ -1035,13 +1079,14 @@ class ConfigRun(object):
 
     # -- WMS ---------------------------------------------------------------------------------------------------
     def _layers(self, p):
-        return {'a': 'lyr_a', 'b': 'lyr_b', 'ab': 'lyr_a,lyr_b'}[p['layer']]
+        return {'a': 'lyr_a', 'b': 'lyr_b', 'ab': 'lyr_a,lyr_b', 'd': 'lyr_d', 'm': 'lyr_m', 'ad': 'lyr_a,lyr_d'}[p['layer']]
 
-    def _getmap(self, layers, bbox, size, fmt='image/png'):
+    def _getmap(self, layers, bbox, size, fmt='image/png', extras=None):
         params = [('SERVICE', 'WMS'), ('VERSION', '1.1.1'), ('REQUEST', 'GetMap'), ('LAYERS', layers), ('STYLES', ''),
                   ('SRS', self.facts['srs']), ('BBOX', ','.join(repr(float(v)) for v in bbox)),
                   ('WIDTH', str(size[0])), ('HEIGHT', str(size[1])), ('FORMAT', fmt)]
-        return '/service', '&'.join('%s=%s' % (k, quote(v, safe='/:,')) for k, v in params)
+        query = '&'.join('%s=%s' % (k, quote(v, safe='/:,')) for k, v in params)
+        return '/service', query + ('&' + extras if extras else '')
 
     def _inside_grid(self, rect):
         b = self.ref.bbox
@@ -1095,12 +1140,30 @@ class ConfigRun(object):
         if rect is None:
             self.stats.notes['wms-pixels:no-tile-inside-grid-bbox'] += 1
             return
-        req = self._getmap(self._layers(p), rect, size)
+        if (p['layer'] in ('d', 'ad') and 'd' not in (self.opts.get('direct') or '')) or \
+                (p['layer'] == 'm' and 'm' not in (self.opts.get('direct') or '')):
+            return      # (hand-edited case)
+        extras = p.get('extras')
+        low = (extras or '').lower()
+        tiled = 'tiled=true' in low
+        in_image = 'exceptions=inimage' in low or 'exceptions=blank' in low
+        req = self._getmap(self._layers(p), rect, size, extras=extras)
         px = size[0] * size[1]
-        expect = 'serve' if px <= P else 'refuse'
+        if px > P:
+            # with EXCEPTIONS=inimage / blank a refusal may legitimately be an image: only the side effects are judged
+            expect = 'refuse-any-answer' if in_image else 'refuse'
+        elif tiled:
+            # WMS-C request: must align with the tile grid of a cached layer, otherwise an error (not modelled here)
+            expect = 'global-only'
+        else:
+            expect = 'serve'
         near = abs(px - P) <= 0.05 * P
-        self._judge(p, req, expect, ['svc:wms', 'layer:' + p['layer'], 'expect:' + expect, 'probe:pixels-' + rel],
-                    nontrivial=near or rel.startswith('astro'), svc='wms', what='pixels-over-limit')
+        kind = 'none' if not extras else ('tiled' if tiled else 'other')
+        uncached = p['layer'] in ('d', 'm', 'ad')
+        self._judge(p, req, expect, ['svc:wms', 'layer:' + p['layer'], 'expect:' + expect, 'probe:pixels-' + rel,
+                                     'pixels-extras:%s/%s' % (kind, 'uncached-layer' if uncached else 'cached-layer')],
+                    nontrivial=near or rel.startswith('astro'), svc='wms',
+                    what='pixels-over-limit' + ('+tiled' if tiled else ('+extras' if extras else '')))
 
     def _wms_tiles(self, p):
         N = int(self.opts['max_tile_limit'])
